@@ -159,23 +159,33 @@ def conn_caps(s):
 
 # ---------------------------------------------------------------- C07
 def mon_c07(s, v):
+    """in-flight QoS>0 PUBLISH per connection vs the Receive Maximum of its CONNACK.  The order of things inside one drain is the real one:
+    the harness logs writes as they happen and (hook in assemble_op) every inbound packet as it is dispatched."""
     f = []
     caps = conn_caps(s)
-    # within one script line the delivered bytes are the cause and the writes the effect
-    timeline = [(w["i"], 1, "w", w) for w in v.wire] + [(r["i"], 0, "r", r) for r in v.inb]
-    timeline.sort(key=lambda x: (x[0], x[1]))
-    inflight = {}
-    for i, _, k, x in timeline:
-        c = x["conn"]
-        if c is None: continue
-        d = x["dec"]
-        fl = inflight.setdefault(c, set())
-        if k == "w" and d["type"] == "publish" and d["qos"] > 0:
-            fl.add(d["pid"])
-            rm = caps.get(c, {}).get(0x21, [65535])[0]
-            if len(fl) > rm: f.append(f"connection {c} (Receive Maximum {rm}): {len(fl)} QoS>0 PUBLISH in flight after line {i}: ids {sorted(fl)}")
-        elif k == "r" and (d["type"] in ("puback", "pubcomp") or (d["type"] == "pubrec" and d["rc"] >= 0x80)):
-            fl.discard(d["pid"])
+    conn = None; c = 0
+    inflight = set()
+    for i, (line, evs, st, t) in enumerate(s.tr):
+        ws = line.split()
+        if ws and ws[0] == "reconnect":
+            c = int(line.split("#conn=")[1]); conn = c; inflight = set()
+        for e in evs:
+            es = e.split()
+            if es[0] in ("shut", "close"): conn = None; inflight = set()
+            elif es[0] == "pkt" and conn is not None:
+                cb = int(es[1], 16); body = bytes.fromhex(es[2]) if es[2] != "-" else b""
+                try: d = ref.decode(bytes([cb]) + ref.e_vint(len(body)) + body, lenient=True)
+                except ref.Malformed: continue
+                if d["type"] in ("puback", "pubcomp") or (d["type"] == "pubrec" and d["rc"] >= 0x80): inflight.discard(d["pid"])
+            elif es[0] == "wr" and conn is not None:
+                for hx in es[2:]:
+                    raw = bytes.fromhex(hx) if hx != "-" else b""
+                    try: d = ref.decode(raw)
+                    except ref.Malformed: continue
+                    if d["type"] == "publish" and d["qos"] > 0:
+                        inflight.add(d["pid"])
+                        rm = caps.get(conn, {}).get(0x21, [65535])[0]
+                        if len(inflight) > rm: f.append(f"connection {conn} (Receive Maximum {rm}): {len(inflight)} QoS>0 PUBLISH in flight after line {i}: ids {sorted(inflight)}")
     return f
 
 
